@@ -252,6 +252,8 @@ class Harness:
                 C.queue_input(*a["xs"], report=r)
             elif op == "clear_input":
                 C.clear_input(report=r)
+            elif op == "set_input_self":
+                C.set_input(C.get_input(report=r), report=r)
             else:
                 raise ValueError(op)
         except BaseException as e:
@@ -261,7 +263,7 @@ class Harness:
             self.fault_injection(False)
         # operations that execute nothing leave the sandbox's exception as it was: it still belongs to the program
         # of the last execution
-        if prog is None and op in ("clear_output", "set_input", "queue_input", "clear_input"):
+        if prog is None and op in ("clear_output", "set_input", "queue_input", "clear_input", "set_input_self"):
             prog = getattr(self, "last_prog", None)
         else:
             self.last_prog = prog
